@@ -7,7 +7,7 @@ EXPLANATION = 'Mixed. P: the callers of the native hybrid decoder in core.py are
 def p_parts():
     from ._callsites import p_callsites
     from ._generic import optional_parts
-    return [p_callsites] + optional_parts(("_pages", "p_pages"), ("_hybrid", "p_hybrid"), ("_speedups", "p_speedups"), ("_units", "p_units"), ("_schematree", "p_schematree"))
+    return [p_callsites] + optional_parts(("_pages", "p_pages"), ("_hybrid", "p_hybrid"), ("_speedups", "p_speedups"), ("_units", "p_units"), ("_schematree", "p_schematree"), ("_readoptions", "p_readoptions"))
 
 
 def run(ctx):
